@@ -561,7 +561,8 @@ func (x *Exec) fieldConst(owner string, name string) int64 {
 		return c
 	}
 	c := int64(len(x.fieldIds) + 1)
-	if c >= refK {
+	if c >= refK-1 {
+		// refK-1 is reserved: it is the residue of element references (see elemRefSt)
 		unsupported("too many embedded struct fields")
 	}
 	x.fieldIds[k] = c
